@@ -1,5 +1,6 @@
 import Ivy.Drv.Avl
 import Ivy.Drv.AvlPtr
+import Ivy.Drv.Tls
 import Ivy.Drv.Heap
 import Ivy.Drv.Pump
 import Ivy.Drv.Loop
@@ -16,6 +17,7 @@ def main (args : List String) : IO UInt32 := do
   match args with
   | ["avl"] => Ivy.Drv.Avl.run; return 0
   | ["avlptr"] => Ivy.Drv.AvlPtr.runQuiet; return 0
+  | ["tls"] => Ivy.Drv.Tls.run; return 0
   | ["heap"] => Ivy.Drv.Heap.run; return 0
   | ["pump"] => Ivy.Drv.Pump.run; return 0
   | ["loop"] => Ivy.Drv.Loop.run; return 0
